@@ -496,7 +496,8 @@ def run_shard(tier, idx, nshards, rec, known):
             for j in range(nparts):
                 src = {'op': 'map', 'fn': j, 'in': {'op': 'dict', 'id': j + 1, 'keys': [f'{chr(97 + j)}{i}' for i in range(3)],
                                                    'mode': 'pickle'}}
-                parts.append({'op': 'filter', 'm': 2, 'r': j % 2, 'lazy': True, 'int': False, 'in': src})
+                parts.append({'op': 'filter', 'm': 2, 'r': j % 2, 'lazy': True, 'int': False,
+                              'lazy_as': (None, 'np', 'int')[j % 3], 'in': src})
             for top in ('items', 'items_map', 'plain'):
                 node = {'op': 'concat', 'how': 'method', 'ins': parts}
                 if top != 'plain':
